@@ -83,8 +83,7 @@ func (x *Exec) specCall(c *SpecCtx, e *Expr) (*Val, error) {
 			return nil, err
 		}
 		c2 := c.inState(c.old)
-		c2.li = nil
-		c2.inBody = false
+		c2.inOld = true
 		return x.specEval(c2, e.Args[0])
 	case "local":
 		// local(name): value of a body local in the state being described (exit state in ensures/sets)
@@ -95,7 +94,7 @@ func (x *Exec) specCall(c *SpecCtx, e *Expr) (*Val, error) {
 		c2.inBody = true
 		c2.locals = true
 		if a, ok := x.localCell(&c2, e.Args[0].Name); ok {
-			v := c.st.cells[a]
+			v := c.cells().cells[a]
 			if v.Typ == nil {
 				v = retype(v, a.Type().(*types.Pointer).Elem())
 			}
@@ -115,8 +114,7 @@ func (x *Exec) specCall(c *SpecCtx, e *Expr) (*Val, error) {
 			return nil, fmt.Errorf("label %s is not (yet) defined at this point", e.Args[0].Name)
 		}
 		c2 := c.inState(ls)
-		c2.li = nil
-		c2.inBody = false
+		c2.inOld = true
 		return x.specEval(c2, e.Args[1])
 	case "sameSince":
 		// sameSince(L, p): every field of *p equals its value in the labelled state
@@ -149,6 +147,7 @@ func (x *Exec) specCall(c *SpecCtx, e *Expr) (*Val, error) {
 			return nil, fmt.Errorf("pre() outside a loop clause")
 		}
 		c2 := c.inState(c.pre)
+		c2.cellSt = c.pre // locals inside pre() denote their value at loop entry
 		return x.specEval(c2, e.Args[0])
 	case "ite":
 		if err := need(3); err != nil {
@@ -542,7 +541,7 @@ func (x *Exec) specCall(c *SpecCtx, e *Expr) (*Val, error) {
 				return nil, err
 			}
 			c2 := c.inState(c.old)
-			c2.li = nil
+			c2.inOld = true
 			old, err := x.specEval(c2, a)
 			if err != nil {
 				return nil, err
